@@ -255,7 +255,8 @@ def idle_conversations(seed, n, end=True):
     """Idle periods of many heartbeat cycles with an occasional send either way, time advancing
     in steps of 1-3 ticks (for the pre-emptive hub: every PING / PONG exchange then happens under
     a schedule of its own, e.g. the ping thread descheduled right after queueing its PING while
-    the PONG comes back)."""
+    the PONG comes back); one advance in four carries an application send() issued at the same
+    moment, so that it runs concurrently with the ping threads and the service task."""
     rng = random.Random(seed)
     out = []
     for i in range(n):
@@ -269,7 +270,8 @@ def idle_conversations(seed, n, end=True):
                 sc.append({'op': 'csend', 'k': 1})
             else:
                 now += rng.choice([1, 1, 2, 3])
-                sc.append({'op': 'tick', 't': now})
+                # (one advance in four carries an application send() issued at the same moment)
+                sc.append({'op': 'tsend' if rng.random() < 0.25 else 'tick', 't': now})
         if end:
             sc += [{'op': 'cdisc'}, {'op': 'tick', 't': now + 60}]
         out.append(sc)
@@ -287,11 +289,22 @@ def run_idle_preempt(ck, seed, n, end=True):
         pi, pt = IDLE_HB[k % len(IDLE_HB)]
         scfg = {'ping_interval': pi, 'ping_timeout': pt, 'monitor': k % 2 == 0}
         sseed = seed * 2003 + k
-        steps, facts = e2e.run_conversation('sync', 'sync', scfg, sc, seed=sseed, preempt=True)
+        steps, facts = e2e.run_conversation('sync', 'sync', scfg, sc, seed=sseed, preempt=True,
+                                            time_yield=True)
         traces.append(to_trace(steps))
         metas.append({'pair': facts['pair'], 'transports': sc[0]['tr'], 'hb': [pi, pt], 'script': sc,
-                      'schedule_seed': sseed, 'preempt': True, 'scfg': scfg})
+                      'schedule_seed': sseed, 'preempt': True, 'time_yield': True, 'scfg': scfg,
+                      'api_exceptions': facts['server_api_exceptions']})
         ck.distinct([facts['pair'], 'idle-preempt', k, sseed])
+    nexc = 0
+    for m_ in metas:
+        if m_['api_exceptions']:
+            nexc += 1
+            if nexc <= 3:
+                ck.violation('an application call of the threaded server raised under a pre-emptive '
+                             'schedule (%s, heartbeat=%s): %s' % (m_['transports'], m_['hb'],
+                                                                   m_['api_exceptions'][0]),
+                             {'meta': m_, 'kind': 'e2e'})
     return traces, metas
 
 
@@ -507,12 +520,17 @@ def replay(path, pid='C10'):
                                         m['script'],
                                         latency=m.get('latency', 0),
                                         http_latency=m.get('http_latency', 0),
-                                        seed=m.get('schedule_seed', 0), preempt=m.get('preempt', False))
+                                        seed=m.get('schedule_seed', 0), preempt=m.get('preempt', False),
+                                        time_yield=m.get('time_yield', False))
     tr = to_trace(steps)
     v = tracecheck.validate('EioE2ETrace', [tr], constants={'MaxMsg': 100000})
     mode = MODE[m['transports']]
     vs = tracecheck.validate('EioSystemTrace', [tr], constants=trace_consts(mode),
                              invariants=['TypeOK', 'InOrderOnce'])
+    if facts.get('server_api_exceptions'):
+        print('replay: application call raised: %s' % facts['server_api_exceptions'][0])
+        print('VIOLATION property=%s replay=%s' % (pid, path))
+        return 1
     if v.accepted and vs.accepted:
         print('replay: conversation satisfies the contract and is a behaviour of EioSystem')
         return 0
